@@ -40,7 +40,7 @@ ASSUMPTIONS = [
     "registration order may matter among modifications at the same (block, offset) (statement) - those sets are not permuted here",
     "x86-64 ELF only",
 ]
-BOUNDS = {"quick": {"deviations": 1, "alternatives": ["reverse"], "hash_seeds": [0, 1, 2, 3]},
+BOUNDS = {"quick": {"deviations": 1, "alternatives": ["reverse"], "hash_seeds": [0, 1, 2]},
           "thorough": {"deviations": 1, "alternatives": ["reverse", "rotate"], "hash_seeds": [0, 1, 2, 3, 4, 5, 6, 7]}}
 CAP_S = {"quick": 170, "thorough": 2400}
 STATES_ARE_DISTINCT_CASES = False
